@@ -157,6 +157,9 @@ class Model:
 
     def __init__(self):
         self.calls = 0
+        self.sample = []
+        self._seen = 0
+        self._rs = random.Random(12345)
 
     def batch(self, calls, shards=NCPU):
         """calls: list of (fn, python value) -> list of decoded python values."""
@@ -192,6 +195,16 @@ class Model:
                 raise RuntimeError(f"model driver returned {len(results[k])} lines for {len(idxs)} calls")
             for i, o in zip(idxs, results[k]):
                 outs[i] = V.dec(o)
+        # a reservoir of small calls for the generic vm_compute cross-check of the thorough tier
+        for (fn, arg), ln, out in zip(calls, lines, outs):
+            if len(ln) <= 3000:
+                self._seen += 1
+                if len(self.sample) < 400:
+                    self.sample.append(((fn, arg), out))
+                else:
+                    j = self._rs.randrange(self._seen)
+                    if j < 400:
+                        self.sample[j] = ((fn, arg), out)
         return outs
 
     def one(self, fn, arg):
